@@ -1323,5 +1323,11 @@ class _CompiledImporter:
         elif isinstance(cell_value, str) and cell_value.startswith('='):
             return ExcelOpxWrapper.RangeData(address, cell_value, None)
 
+        elif isinstance(cell_value, float) and type(cell_value) is not float:
+            # the yaml loader returns a float subclass (ScalarFloat): as a cell
+            # value it must be the plain float that was saved, e.g. sum()
+            # compensates rounding only for exact floats
+            return ExcelOpxWrapper.RangeData(address, '', float(cell_value))
+
         else:
             return ExcelOpxWrapper.RangeData(address, '', cell_value)
